@@ -157,20 +157,24 @@ def sizeL : ExprL → Nat
   | .cons e es => size e + sizeL es
 end
 
-/-- the expression a grammar denotes for a shell -/
-def meaning (g : Grammar) (sh : Shell) : Expr :=
+/-- the expression a grammar denotes for a shell; `sp` is the source position recorded at the node
+that joins several call variants (positions carry no meaning) -/
+def meaningAt (sp : Span) (g : Grammar) (sh : Shell) : Expr :=
   let calls := g.filterMap fun
     | .call _ _ e => some e
     | _ => none
   let top : Expr := match calls with
     | [e] => e
-    | es => .alt (ExprL.ofList es) default
+    | es => .alt (ExprL.ofList es) sp
   let e := (distr top none).1
   -- along one path of the expansion every definition is entered at most once (acyclic grammar), so
   -- the depth is bounded by the total size of the grammar; every level costs two units of fuel
   let total := g.foldl (fun n st => n + match st with | .call _ _ e => size e | .defn _ _ _ e => size e) 0
   let e := expand sh g (2 * total + 8) e
   label (words e) 0
+
+/-- the expression a grammar denotes for a shell -/
+def meaning (g : Grammar) (sh : Shell) : Expr := meaningAt default g sh
 
 /-! ### the language, by partial derivatives (Antimirov) -/
 
